@@ -43,7 +43,8 @@ RULE = ('case = one error_probability evaluation or one Metropolis step; '
         'distinct by (code, noise, rate, error); non-trivial = error != 0')
 ASSUMPTIONS = ['supported size family = pv/families.py']
 REQUIRED_COUNTERS = ['probabilities_compared', 'normalisation_sums',
-                     'metropolis_steps_observed', 'log_form_compared',
+                     'metropolis_steps_observed',
+                     'metropolis_moves_on_occupied_qubit', 'log_form_compared',
                      'errors_with_Y']
 
 DIRS = [(1 / 3, 1 / 3, 1 / 3), (0.5, 0.3, 0.2), (0.0, 1.0, 0.0),
@@ -211,14 +212,19 @@ def run_large(task, out):
 
 
 class RandomProxy:
+    """Stands in for np.random inside the splitting module: forwards every
+    call and records each choice() with its result."""
+
     def __init__(self, log):
         self.log = log
 
     def choice(self, a, *args, **kw):
+        r = np.random.choice(a, *args, **kw)
         p = kw.get('p')
-        if p is not None and list(a) == [0, 1]:
-            self.log.append(('accept', float(p[1])))
-        return np.random.choice(a, *args, **kw)
+        self.log.append(('choice', a if isinstance(a, (int, np.integer))
+                         else list(a), None if p is None else
+                         [float(x) for x in p], r))
+        return r
 
     def __getattr__(self, name):
         return getattr(np.random, name)
@@ -233,8 +239,12 @@ class NPProxy:
 
 
 def run_metropolis(task, out):
-    """Real SplittingSimulation.run; every acceptance probability and the two
-    log-probabilities it came from are intercepted."""
+    """Real SplittingSimulation.run.  Every Metropolis step is reconstructed
+    at the boundary: the error handed to get_next_error, the proposed qubit
+    and Pauli (the module's own random choices, recorded), the acceptance
+    probability handed to the random choice, and the returned (error, log p).
+    All are compared with the reference channel -- independently of how
+    panqec computes the ratio internally."""
     from panqec.error_models import PauliErrorModel
     from panqec.decoders import MatchingDecoder
     from panqec.simulation import SplittingSimulation
@@ -245,27 +255,31 @@ def run_metropolis(task, out):
         for direction, dn in (((0.5, 0.3, 0.2), None),
                               ((1 / 3, 1 / 3, 1 / 3), None),
                               ((0.1, 0.2, 0.7), 'XZZX'),
-                              ((0.2, 0.6, 0.2), 'XY')):
+                              ((0.2, 0.6, 0.2), 'XY'),
+                              ((0.0, 0.0, 1.0), None)):
             code = fam.build(cls, size)
             n = code.n
             em = PauliErrorModel(*direction, deformation_name=dn)
             rates = [0.2, 0.1]
             decs = [MatchingDecoder(code, em, r) for r in rates]
             log = []
-            real_ep = em.error_probability
+            steps_rec = []
+            real_gne = sp.SplittingSimulation.get_next_error
 
-            def ep(error, code_, error_rate, log_output=False, _log=log):
-                r = real_ep(error, code_, error_rate, log_output=log_output)
-                if log_output:
-                    _log.append(('logp', gf2.pack(error), float(error_rate),
-                                 float(r)))
-                return r
-            em.error_probability = ep
+            def gne(self, decoder, error_rate, previous_error, _log=log,
+                    _rec=steps_rec):
+                start = len(_log)
+                prev = gf2.pack(previous_error)
+                nxt, lp = real_gne(self, decoder, error_rate, previous_error)
+                _rec.append((prev, float(error_rate), gf2.pack(nxt),
+                             float(lp), list(_log[start:])))
+                return nxt, lp
+            sp.SplittingSimulation.get_next_error = gne
             real_np = sp.np
             sp.np = NPProxy(log)
             desc = {'k': 'metropolis', 'cls': cls, 'size': list(size),
                     'direction': list(direction), 'noise_deformation': dn}
-            mech = 'splitting/acceptance'
+            mech = 'splitting'
             try:
                 with contextlib.redirect_stdout(io.StringIO()):
                     sim = SplittingSimulation(code, em, decs, rates,
@@ -280,34 +294,62 @@ def run_metropolis(task, out):
                 continue
             finally:
                 sp.np = real_np
-                em.error_probability = real_ep
-            # log: ..., logp(prev), logp(new), accept(q), ...
-            i = 0
+                sp.SplittingSimulation.get_next_error = real_gne
             steps = 0
-            while i + 2 < len(log) + 0:
-                if log[i][0] == 'logp' and log[i + 1][0] == 'logp' and \
-                        log[i + 2][0] == 'accept':
-                    _, e_old, rate, lp_old = log[i]
-                    _, e_new, _, lp_new = log[i + 1]
-                    q = log[i + 2][1]
-                    tab = ref_channel(code, cls, direction, rate, dn, {})
-                    r_old = ref_logprob(tab, e_old, n)
-                    r_new = ref_logprob(tab, e_new, n)
-                    q_ref = math.exp(min(0.0, r_new - r_old))
-                    steps += 1
-                    out.count('metropolis_steps_observed')
-                    if abs(q - q_ref) > 1e-9 * max(q_ref, 1e-12):
-                        out.violation(
-                            f'{mech}/not-the-likelihood-ratio',
-                            f'acceptance probability {q!r} but the true '
-                            f'likelihood ratio gives {q_ref!r}',
-                            dict(desc, rate=rate,
-                                 old=gf2.unpack(e_old, 2 * n),
-                                 new=gf2.unpack(e_new, 2 * n)))
-                        break
-                    i += 3
-                else:
-                    i += 1
+            for prev, rate, nxt, lp, calls in steps_rec:
+                ch = [c for c in calls if c[0] == 'choice']
+                if len(ch) != 3 or ch[2][1] != [0, 1] or ch[2][2] is None:
+                    out.violation(f'{mech}/unexpected-random-protocol',
+                                  f'{len(ch)} random choices in one step',
+                                  desc)
+                    break
+                q_idx = int(ch[0][3])
+                letter = str(ch[1][3])
+                q = ch[2][2][1]
+                accepted = int(ch[2][3])
+                edge = 0
+                if letter in 'XY':
+                    edge |= 1 << q_idx
+                if letter in 'ZY':
+                    edge |= 1 << (n + q_idx)
+                new = prev ^ edge
+                tab = ref_channel(code, cls, direction, rate, dn, {})
+                r_old = ref_logprob(tab, prev, n)
+                r_new = ref_logprob(tab, new, n)
+                steps += 1
+                out.count('metropolis_steps_observed')
+                if gf2.weight(prev, n) and ((prev >> q_idx) & 1 or
+                                            (prev >> (n + q_idx)) & 1):
+                    out.count('metropolis_moves_on_occupied_qubit')
+                w = dict(desc, rate=rate, old=gf2.unpack(prev, 2 * n),
+                         proposed_qubit=q_idx, proposed_pauli=letter)
+                if math.isinf(r_old) or math.isinf(r_new):
+                    continue
+                q_ref = math.exp(min(0.0, r_new - r_old))
+                if abs(q - q_ref) > 1e-9 * max(q_ref, 1e-12):
+                    out.violation(
+                        f'{mech}/acceptance/not-the-likelihood-ratio',
+                        f'acceptance probability {q!r} but the true '
+                        f'likelihood ratio gives {q_ref!r} (proposal '
+                        f'{letter} on qubit {q_idx})', w)
+                    break
+                if nxt not in (prev, new):
+                    out.violation(f'{mech}/next-error-not-old-or-proposed',
+                                  'returned error is neither the previous '
+                                  'nor the proposed one', w)
+                    break
+                if not accepted and nxt != prev:
+                    out.violation(f'{mech}/moved-without-acceptance',
+                                  'chain moved although the proposal was '
+                                  'rejected', w)
+                    break
+                r_nxt = ref_logprob(tab, nxt, n)
+                if abs(lp - r_nxt) > 1e-9 * max(1.0, abs(r_nxt)):
+                    out.violation(
+                        f'{mech}/recorded-log-probability',
+                        f'log p recorded for the returned error is {lp!r} '
+                        f'but its log-probability is {r_nxt!r}', w)
+                    break
             out.case(desc, steps > 0, n=max(steps, 1), distinct=steps,
                      sample=dict(desc, steps=steps))
 
